@@ -8,8 +8,10 @@ configuration-frame typing of the finite-deformation kinematics (D2, objectivity
       compute_initial_state, material constants as positive symbols.  Obligation: the value part of the
       energy is exactly 0 and every eps part is 0 (diagonal first Piola stress vanishes; off-diagonal
       stress at an isotropic state vanishes by isotropy).  Hardening energies vanish at zero plastic strain.
-  D2  see rules/frames.py: frame types (spatial / reference / intermediate) of every matrix product in the
-      finite-deformation strain measures and state updates.
+  D2  see rules/frames.py: every factory is called for every option scenario and the energy / state-update closures it returns are
+      interpreted on frame-typed symbolic tensors (spatial / reference / intermediate frames): every product chains, every spectral
+      function acts on an endomorphism of one frame, the energy of every finite-deformation scenario depends on the deformation only
+      through invariants, and the tensor written to a state slot has the frames of the tensor read from it.
 Not decided: isotropy under reference rotations for evolved states as numbers, symmetry of the Kirchhoff stress
 as a number, invariance to rounding inside compiled batches.
 """
@@ -22,6 +24,7 @@ from optilint.tensoreval import Dual, Arr, EvalError, Raised, _A, rat_is_zero, R
 from .common import src
 from . import materials as mt
 from . import frames
+from . import C08_options as opts
 
 LEVEL = "other"
 RULE_TEXT = ("obligations = (model x option scenario x strain direction: energy value 0 and first variation 0 at rest) + "
@@ -38,7 +41,7 @@ def run(ctx):
     from . import units
     ctx.guard(units.run, ctx, "D1/T8-dimensional-homogeneity", {m for (m, f, k) in mt.MODELS if k == "solid" and not m.endswith("J2Plastic") and "Visco" not in m}, min_scenarios=3)
     ctx.guard(frames.run_frames, ctx, "D2/T9-frames", which="C08")
-    from . import tensorid
+    from . import C08_tensorid as tensorid
     ctx.guard(tensorid.run_identities, ctx, "D2/T7-tensor-helper-identities", ["inv", "detpIm1", "det", "deviator", "sym", "norm_of_deviator_squared"])
     ctx.trust("first-order Taylor arithmetic on dual numbers; isotropic tensor functions act on diagonal matrices entrywise")
     ctx.assume("material constants and dt are positive; virgin flow stress > 0; rate-sensitivity and hardening exponents > 0")
@@ -59,8 +62,8 @@ def d1(ctx):
     for (mname, fac, kind) in mt.MODELS:
         mod = ctx.need_module(mname)
         fsc = ctx.need(f"{mname}:{fac}")
-        extra = ["optimism.material.Hardening"] if mname.endswith("J2Plastic") else []
-        values, optional, presence = mt.option_space(ctx, [mname] + extra)
+        extra = ["optimism.material.Hardening"] if frames._imports(ctx, mname, "Hardening") else []
+        values, optional, presence = opts.option_space(ctx, [mname] + extra)
         for sc in mt.scenarios(values, optional, presence):
             label = ", ".join(f"{k}={v}" for k, v in sorted(sc.items())) or "defaults"
             I = mt.make_interp(ctx.repo)
@@ -103,7 +106,7 @@ def d1_hardening(ctx):
     rule = "D1/SCCP-hardening-zero"
     mname = "optimism.material.Hardening"
     mod = ctx.need_module(mname)
-    values, optional, presence = mt.option_space(ctx, [mname])
+    values, optional, presence = opts.option_space(ctx, [mname])
     n = 0
     for sc in mt.scenarios(values, optional, presence):
         label = ", ".join(f"{k}={v}" for k, v in sorted(sc.items()))
@@ -161,6 +164,28 @@ def variants(repo):
         Variant("inv cofactor transposed index", "optimism/TensorMath.py", sub("invA10 = A[1, 2]*A[2, 0] - A[1, 0]*A[2, 2]", "invA10 = A[1, 2]*A[2, 0] - A[0, 1]*A[2, 2]"), "D2/T7-tensor-helper-identities"),
         Variant("detpIm1 misses a term", "optimism/TensorMath.py", sub("    return trace(A) + I2(A) + det(A)", "    return trace(A) + det(A)"), "D2/T7-tensor-helper-identities"),
         Variant("plastic update order", J, sub("@FpOld\n", "@FpOld.T\n"), "D2/T9-frames"),
+        # ---- round 2: violations of objectivity / isotropy / state typing that only a model-level reading derives
+        Variant("Neohookean: tr(H.H) instead of H:H", N, sub_in_func("_neohookean_3D_energy_density", "np.tensordot(dispGrad, dispGrad)", "np.tensordot(dispGrad, dispGrad.T)"), "D2/T9-frames"),
+        Variant("J2: elastic distortion from the wrong side", J, sub("Fe = F@TensorMath.inv(Fp)", "Fe = TensorMath.inv(Fp)@F"), "D2/T9-frames"),
+        Variant("Gent: first invariant from tr F", G, sub("np.tensordot(F, F)", "np.trace(F)**2"), "D2/T9-frames"),
+        Variant("phase field: tension test on one strain component", P, sub("np.where(np.trace(strain) > 0.0, degradation(phase), 1.0)", "np.where(strain[2,2] > 0.0, degradation(phase), 1.0)"), "D2/T9-frames"),
+        Variant("visco: elastic distortion from the wrong side", V, sub("Fe_trial = F @ np.linalg.inv(Fv_old)", "Fe_trial = np.linalg.inv(Fv_old) @ F"), "D2/T9-frames"),
+        Variant("multi-branch: every branch flows with the strain of branch 0", MB, sub_in_func("_compute_state_new", "      Ee_trial = _compute_elastic_logarithmic_strain(dispGrad, state_temp)", "      Ee_trial = _compute_elastic_logarithmic_strain(dispGrad, _return_state_for_branch(stateOld, 0))"), "D2/T9-frames"),
+        Variant("J2: linear strain under large-deformation kinematics", J, sub("    if finiteDeformations:\n        compute_elastic_strain = compute_elastic_logarithmic_strain\n", "    if finiteDeformations:\n        compute_elastic_strain = compute_elastic_linear_strain\n"), "D2/T9-frames"),
+        Variant("J2: spatial tensor stored as plastic distortion", J, sub("    FpNew = TensorMath.exp_symm(stateInc[PLASTIC_DISTORTION].reshape((3,3)))@FpOld\n", "    FpNew = (dispGrad + np.eye(3))@TensorMath.inv(FpOld)@TensorMath.exp_symm(stateInc[PLASTIC_DISTORTION].reshape((3,3)))@FpOld\n"), "D2/T9-frames"),
+        Variant("Gent: squared log in the volumetric energy", G, sub("(0.5*J**2 - 0.5 - np.log(J))", "(0.5*J**2 - 0.5 - np.log(J)**2)"), "D1/SCCP-rest-state"),
+        # ---- round 2: restructurings that leave every derived value unchanged
+        Variant("Neohookean: I1 as trace of C", N, sub_in_func("_adagio_neohookean", "np.tensordot(F,F)", "np.trace(F.T@F)"), None),
+        Variant("Gent: double contraction by einsum", G, sub("np.tensordot(F, F)", "np.einsum('ij,ij', F, F)"), None),
+        Variant("Gent: double contraction by sum of products", G, sub("np.tensordot(F, F)", "np.sum(F*F)"), None),
+        Variant("J2: inverse from numpy, C assembled first", J, sub("    Fe = F@TensorMath.inv(Fp)\n    Ce = Fe.T@Fe\n", "    FpInv = np.linalg.inv(Fp)\n    Ce = FpInv.T@(F.T@F)@FpInv\n"), None),
+        Variant("J2: yield switch with nested defs and negated test", J, sub("    stateInc = jax.lax.cond(isYielding,\n                            lambda e: update_state(e, state, dt, props, hardening_model),\n                            lambda e: np.zeros(NUM_STATE_VARS),\n                            elasticStrain)\n", "    def plastic_step(strain):\n        return update_state(strain, state, dt, props, hardening_model)\n\n    def elastic_step(strain):\n        return np.zeros_like(state)\n\n    stateInc = jax.lax.cond(~isYielding, elastic_step, plastic_step, elasticStrain)\n"), None),
+        Variant("J2: new state packed with .at[].set", J, sub("    return np.hstack((eqpsNew, FpNew.ravel()))\n", "    return np.zeros(NUM_STATE_VARS).at[PLASTIC_DISTORTION].set(FpNew.ravel()).at[EQPS].set(eqpsNew)\n"), None),
+        Variant("linear elastic: trace written out", L, sub_in_func("_linear_elastic_energy_density", "    traceStrain = np.trace(strain)", "    traceStrain = strain[0, 0] + strain[1, 1] + strain[2, 2]"), None),
+        Variant("phase field: where -> if_then_else", P, sub("np.where(np.trace(strain) > 0.0, degradation(phase), 1.0)", "if_then_else(np.trace(strain) > 0.0, degradation(phase), 1.0)"), None),
+        Variant("visco: C by einsum, inverse from TensorMath", V, sub("    Fe_trial = F @ np.linalg.inv(Fv_old)\n    return TensorMath.log_sqrt_symm(Fe_trial.T @ Fe_trial)", "    Fe_trial = F @ TensorMath.inv(Fv_old)\n    return 0.5*TensorMath.log_symm(np.einsum('ki,kj->ij', Fe_trial, Fe_trial))"), None),
+        Variant("multi-branch: state as a stack of 3x3 blocks", MB, sub_in_func("_compute_state_new", "      state_temp = _return_state_for_branch(stateOld, n)", "      state_temp = stateOld.reshape((NUM_PRONY_TERMS, 3, 3))[n].ravel()"), None),
+        Variant("linear elastic: strain measures dispatched through a dict", L, sub("    if strainMeasure == 'linear':\n        _strain = linear_strain\n    elif strainMeasure == 'green lagrange':\n        _strain = green_lagrange_strain\n    elif strainMeasure == 'logarithmic':\n        _strain = log_strain\n    else:\n        raise ValueError('Unrecognized strain measure')\n", "    measures = {'linear': linear_strain, 'green lagrange': green_lagrange_strain, 'logarithmic': log_strain}\n    if strainMeasure not in measures:\n        raise ValueError('Unrecognized strain measure')\n    _strain = measures[strainMeasure]\n"), None),
         Variant("reformat Neohookean", N, reformat(), None),
         Variant("reformat J2Plastic", J, reformat(), None),
         Variant("equivalent volumetric form", G, sub("(0.5*J**2 - 0.5 - np.log(J))", "(0.5*(J**2 - 1.0) - np.log(J))"), None),
